@@ -97,6 +97,14 @@ def genOps3 : List (String × R String) := [
       pure (ans hex (Gen.segwit_digest Crypto.sha256 Gen.OP_CODES t.version
         (t.inputs.map fun i => ⟨i.txid, i.index, py i.scriptSig, i.sequence⟩)
         (t.outputs.map fun o => ⟨o.amount, py o.script⟩) t.locktime (i : Int) (py code) amt (ht : Int)))),
+  ("g:dig_v1", do
+      let t ← tx; let i ← nat; let spks ← listOf toks; let amts ← listOf int; let ext ← nat; let leaf ← toks; let ht ← nat
+      let py := fun (ts : List Spec.Tok) => ts.map fun t => match t with
+        | Spec.Tok.op n => Py.PyTok.name n | Spec.Tok.int n => Py.PyTok.int n | Spec.Tok.data d => Py.PyTok.data d
+      -- leaf_ver is passed as 0: the function overwrites it (gen_taproot_digest holds for every value)
+      pure (ans hex (Gen.taproot_digest Crypto.sha256 Gen.OP_CODES t.version
+        (t.inputs.map fun i => ⟨i.txid, i.index, py i.scriptSig, i.sequence⟩)
+        (t.outputs.map fun o => ⟨o.amount, py o.script⟩) t.locktime (i : Int) (spks.map py) amts (ext : Int) (py leaf) 0 (ht : Int)))),
   ("g:rmd", do let b ← bytes; pure (ans hex (Gen.rmd_ripemd160 b))),
   ("g:schnorr_sign", do let m ← bytes; let k ← bytes; let a ← bytes; pure (ans hex (Gen.schnorr_sign Crypto.sha256 m k a))),
   ("g:schnorr_verify", do let m ← bytes; let k ← bytes; let s ← bytes; pure (ans (fun (b : Bool) => if b then "1" else "0") (Gen.schnorr_verify Crypto.sha256 m k s))),
